@@ -1,5 +1,6 @@
 import RepidModel.Base.Wire
 import RepidModel.Broker.InMemory
+import RepidModel.Broker.Redis
 
 namespace Repid.Driver
 open Repid
@@ -7,6 +8,7 @@ open Repid
 /-- Mutable state of a driver session (one per process). -/
 structure DState where
   mem : List (String × Mem.Q) := []
+  redis : Redis.R := {}
   deriving Inhabited
 
 abbrev Handler := DState → String → List Sexp → Option (DState × Sexp)
